@@ -15,42 +15,6 @@ Open Scope Q_scope.
 
 (* ================= Part A ================= *)
 
-Lemma Qltb_proper_l a a' b : a == a' -> Qltb a b = Qltb a' b.
-Proof.
-  intro E. destruct (Qltb a b) eqn:E1, (Qltb a' b) eqn:E2; try reflexivity.
-  - apply Qltb_lt in E1. apply Qltb_false in E2. lra.
-  - apply Qltb_false in E1. apply Qltb_lt in E2. lra.
-Qed.
-
-Lemma Qltb_proper_r a b b' : b == b' -> Qltb a b = Qltb a b'.
-Proof.
-  intro E. destruct (Qltb a b) eqn:E1, (Qltb a b') eqn:E2; try reflexivity.
-  - apply Qltb_lt in E1. apply Qltb_false in E2. lra.
-  - apply Qltb_false in E1. apply Qltb_lt in E2. lra.
-Qed.
-
-Lemma Qltb_irrefl a : Qltb a a = false.
-Proof. apply Qltb_false. lra. Qed.
-
-Lemma qmin_from_le m l : qmin_from m l <= m /\ forall x, In x l -> qmin_from m l <= x.
-Proof.
-  revert m. induction l as [|y r IH]; intro m; simpl.
-  - split; [lra | contradiction].
-  - destruct (Qltb y m) eqn:E.
-    + apply Qltb_lt in E. destruct (IH y) as [A B]. split; [lra|].
-      intros x [<-|Hx]; auto.
-    + apply Qltb_false in E. destruct (IH m) as [A B]. split; [exact A|].
-      intros x [<-|Hx]; [lra|auto].
-Qed.
-
-Lemma qmin_from_in m l : qmin_from m l = m \/ In (qmin_from m l) l.
-Proof.
-  revert m. induction l as [|y r IH]; intro m; simpl; [now left|].
-  destruct (Qltb y m).
-  - destruct (IH y) as [A|A]; [right; left; now rewrite A | right; right; exact A].
-  - destruct (IH m) as [A|A]; [now left | right; right; exact A].
-Qed.
-
 Lemma lastmin_le k P q : In q P -> lastmin k P <= coord q k.
 Proof.
   destruct P as [|p r]; [contradiction|]. simpl.
